@@ -200,8 +200,71 @@ func vh_C19_loop() {
 	vAssert("C19.depth-balanced", g.fDepth == 0)
 }
 
-var vhRegistry = map[string]func(){"vh_C19_loop": vh_C19_loop}
+var vhRegistry = map[string]func(){"vh_C19_loop": vh_C19_loop, "vh_C19_setbp": vh_C19_setbp}
 
 var vhIntVars = map[string]*int{"vhMaxSteps": &vhMaxSteps, "vhNExec": &vhNExec, "vhPanicAt": &vhPanicAt, "vhMode": &vhMode, "vhFStep": &vhFStep}
 
 var vhScenarios = map[string]func(map[string]string) bool{}
+
+// ---- SetBreakpoints: a line breakpoint attaches to an executed step ----------
+//
+// A tree of three nodes on lines 1..2; each may be a structural node (action
+// aNop) or have no exec closure. Through the real SetBreakpoints: a request for
+// line L is valid exactly when some node of that line is an executed step, and
+// the breakpoint flag goes to the first such node in walk order and to no
+// structural or exec-less node (on such nodes a breakpoint is either never
+// reported or reported at a moment when nothing of that line runs).
+
+func vmFsetPosition(fs *token.FileSet, p token.Pos) token.Position {
+	return token.Position{Line: int(p)}
+}
+
+func vh_C19_setbp() {
+	vhResetClock()
+	i := vhNewInterp()
+	dbg := &Debugger{interp: i}
+	if !vSymbolic() {
+		// natively positions go through a real file set: Pos p lies on line p
+		i.fset = token.NewFileSet()
+		i.fset.AddFile("x.go", 1, 8).SetLines([]int{0, 1, 2, 3, 4, 5, 6, 7})
+	}
+	root := &node{interp: i, kind: fileStmt}
+	var isStep [3]bool
+	var line [3]int
+	for k := 0; k < 3; k++ {
+		line[k] = vConcretizeInt(vNondetInt("line"), 1, 2)
+		nop, noExec := vNondetBool("structural"), vNondetBool("noExec")
+		c := &node{interp: i, kind: exprStmt, anc: root, pos: token.Pos(line[k]), action: aAssign}
+		if nop {
+			c.action = aNop
+		}
+		if !noExec {
+			c.exec = func(*frame) bltn { return nil }
+		} else {
+			c.gen = func(*node) {} // a generator that installs no closure
+		}
+		isStep[k] = !nop && !noExec
+		root.child = append(root.child, c)
+	}
+	want := vConcretizeInt(vNondetInt("request"), 1, 2)
+	vReach("C19.setbp")
+	res := dbg.SetBreakpoints(func(d *Debugger, cb func(*node)) { cb(root) }, LineBreakpoint(want))
+	first := -1
+	for k := 0; k < 3; k++ {
+		if first < 0 && isStep[k] && line[k] == want {
+			first = k
+		}
+	}
+	vAssert("C19.setbp.one-result", len(res) == 1)
+	valid := len(res) == 1 && res[0].Valid
+	vAssert("C19.setbp.valid-iff-executable-line", valid == (first >= 0))
+	ok := true
+	for k := 0; k < 3; k++ {
+		c := root.child[k]
+		set := c.debug != nil && c.debug.breakOnLine
+		if set != (k == first) {
+			ok = false
+		}
+	}
+	vAssert("C19.setbp.attached-to-first-step-of-line", ok)
+}
